@@ -468,6 +468,8 @@ class Interp:
     # --- helpers ---------------------------------------------------------------------------------------------------
     def resolve(self, segs):
         segs = list(segs)
+        if segs and segs[0] == 'Self' and self.frames and self.frame.get('self_ty'):
+            segs = self.frame['self_ty'].split('::') + segs[1:]
         uses = self.frame.get('uses') if self.frames else None
         if uses and segs and segs[0] in uses:
             segs = uses[segs[0]].split('::') + segs[1:]
@@ -530,6 +532,8 @@ class Interp:
               'loops': [] if top or not self.frames else list(self.frame['loops']), 'returns': [], 'mod': f['mod'], 'env_stack': []}
         self.frames.append(fr)
         env = Env()
+        if f.get('impl_of'):
+            fr['self_ty'] = self.c.resolve(f['mod'], [f['impl_of']])
         fr['param_types'] = {p['pat'].get('name'): p['ty'].replace(' ', '') for p in f['params'] if p['pat'].get('name')}
         for p, a in zip(f['params'], args):
             self.bind(p['pat'], a, env)
@@ -547,6 +551,16 @@ class Interp:
         return val
 
     # --- patterns ------------------------------------------------------------------------------------------------------
+    def is_cond(self, scrut, variant):
+        """`scrut` matches enum variant `variant`; decided statically when the scrutinee is a constant variant (or a choice of them)"""
+        def tail2(p):
+            return '::'.join(p.split('::')[-2:])
+        if scrut[0] == 'path' and '::' in scrut[1] and '::' in variant:
+            return TRUE if tail2(scrut[1]) == tail2(variant) else FALSE
+        if scrut[0] == 'alt' and scrut[1] and all(v[0] in ('path', 'diverge') for _, v in scrut[1]) and '::' in variant:
+            return ('alt', [(c, (TRUE if v[0] == 'path' and tail2(v[1]) == tail2(variant) else FALSE)) for c, v in scrut[1]])
+        return ('is', scrut, variant)
+
     def pat_binds(self, pat):
         k = pat['k']
         if k == 'PIdent':
@@ -573,7 +587,7 @@ class Interp:
             return self.neg(scrut[1])
         if k == 'PIdent':
             if pat['sub'] is None and self.is_variant_ident(pat['name']) and pat['name'] not in env:
-                return ('is', scrut, self.resolve([pat['name']]))
+                return self.is_cond(scrut, self.resolve([pat['name']]))
             env[pat['name']] = scrut
             if pat['sub'] is not None:
                 return self.bind(pat['sub'], scrut, env)
@@ -581,7 +595,7 @@ class Interp:
         if k in ('PWild', 'PRest'):
             return TRUE
         if k == 'PPath':
-            return ('is', scrut, self.resolve(pat['path']['segs']))
+            return self.is_cond(scrut, self.resolve(pat['path']['segs']))
         if k == 'PTupleStruct':
             v = self.resolve(pat['path']['segs'])
             conds = [('is', scrut, v)]
@@ -1173,7 +1187,8 @@ class Interp:
                 return ('ok', args[0])
             if p in ('Err', 'Result::Err'):
                 return ('err', args[0])
-            if last == 'new' and len(segs) >= 2 and segs[-2] in ('Vec', 'HashSet', 'BTreeMap', 'HashMap', 'BTreeSet', 'VecDeque') and not args:
+            if last in ('new', 'with_capacity', 'default') and len(segs) >= 2 and segs[-2] in ('Vec', 'HashSet', 'BTreeMap', 'HashMap', 'BTreeSet', 'VecDeque') and \
+                    (not args or last == 'with_capacity'):
                 if segs[-2] == 'Vec' and let_name is not None and let_mut:
                     aid = self.fresh('acc')
                     self.accs[aid] = {'entries': [], 'fn': self.frame['fn'], 'name': let_name, 'line': e['line']}
